@@ -5,8 +5,8 @@
 export GOFLAGS=-mod=mod GOPROXY=off GOSUMDB=off GOTOOLCHAIN=local; unset GOWORK
 BIN=/verif/bin/astverif
 for A in "$@"; do
-  WT=/tmp/wt/$A
-  for d in /tmp/benign/$A/b*/; do
+  WT=${EVAL_WT:-/tmp/wt/$A}; BD=${BENIGN_DIR:-/tmp/benign}
+  for d in $BD/$A/b*/; do
     k=$(basename $d); [ -f $d/patch.diff ] || continue
     ( cd $WT && git checkout -q -- . && git clean -fdq && git apply $d/patch.diff ) 2>/dev/null || { echo "$A/$k: PATCH-DOES-NOT-APPLY"; continue; }
     ( cd $WT && go build ./... >/dev/null 2>&1 ); b=$?
